@@ -92,8 +92,8 @@ Proof.
         destruct r as [|c2 r2].
         { (* trailing quote: break *)
           cbn [until_quote] in H. rewrite strip_quoted_nil in H.
-          rewrite letter_runs_nonalpha, letter_runs_nil, cur_runs_state in H by (try assumption; reflexivity).
-          cbn [cur_runs] in H. rewrite app_nil_r in H. rewrite fields_flush. exact H. }
+          rewrite letter_runs_nonalpha in H by reflexivity. change (letter_runs [] []) with (@nil (list N)) in H.
+          rewrite app_nil_r, cur_runs_state in H by assumption. rewrite fields_flush. exact H. }
         destruct (c2 =? c_quote)%N eqn:E2.
         { (* '' outside a string *)
           apply N.eqb_eq in E2. subst c2. cbn [until_quote] in H. rewrite N.eqb_refl in H.
